@@ -1310,9 +1310,13 @@ class Process(StateMachine, persistence.Savable, metaclass=ProcessStateMachineMe
             # Ask the step function to pause by setting this flag and giving the
             # caller back a future
             interrupt_exception = process_states.KillInterruption(msg_text)
+            if self._pausing is not None:
+                # This supersedes a pending pause (whose action is about to be cancelled). Its interruption may already
+                # have been delivered to the state, in which case ``step`` has to ignore it when it comes out: should the
+                # kill be withdrawn again, the pause must not come back to life
+                self._stale_interruptions += (self._pausing.cookie,)
             self._set_interrupt_action_from_exception(interrupt_exception)
             self._killing = self._interrupt_action
-            # This supersedes a pending pause (whose action has just been cancelled)
             self._pausing = None
             self._state.interrupt(interrupt_exception)
             return cast(futures.CancellableAction, self._interrupt_action)
